@@ -1,1 +1,78 @@
-fn main() { println!("pverif"); }
+mod instr;
+mod props;
+mod refmath;
+mod run;
+mod util;
+mod world;
+
+use run::{drive, replay_one, Property, Tier};
+use std::path::Path;
+
+fn with_prop(id: &str, f: &mut dyn FnMut(&dyn Runner) -> i32) -> i32 {
+    match id {
+        "C19" => f(&props::c19::C19),
+        _ => {
+            println!("unknown or unclaimed property {}", id);
+            2
+        }
+    }
+}
+
+trait Runner {
+    fn drive(&self, tier: Tier) -> i32;
+    fn replay(&self, path: &Path) -> i32;
+}
+impl<P: Property> Runner for P {
+    fn drive(&self, tier: Tier) -> i32 {
+        drive(self, tier)
+    }
+    fn replay(&self, path: &Path) -> i32 {
+        replay_one(self, path, true)
+    }
+}
+
+fn main() {
+    // contract panics are transaction failures; keep them quiet
+    std::panic::set_hook(Box::new(|info| {
+        if std::env::var("PVERIF_SHOW_PANICS").is_ok() {
+            eprintln!("panic: {}", info);
+        }
+    }));
+    let args: Vec<String> = std::env::args().collect();
+    let usage = "usage: pverif check <Cnn> [--tier quick|thorough] | pverif replay <Cnn> <file>";
+    if args.len() < 3 {
+        println!("{}", usage);
+        std::process::exit(2);
+    }
+    let code = match args[1].as_str() {
+        "check" => {
+            let mut tier = match std::env::var("VERIF_TIER").as_deref() {
+                Ok("thorough") => Tier::Thorough,
+                _ => Tier::Quick,
+            };
+            let mut i = 3;
+            while i < args.len() {
+                if args[i] == "--tier" && i + 1 < args.len() {
+                    tier = if args[i + 1] == "thorough" { Tier::Thorough } else { Tier::Quick };
+                    i += 1;
+                }
+                i += 1;
+            }
+            with_prop(&args[2], &mut |r| r.drive(tier))
+        }
+        "replay" => {
+            if args.len() < 4 {
+                println!("{}", usage);
+                2
+            } else {
+                let p = args[3].clone();
+                with_prop(&args[2], &mut |r| r.replay(Path::new(&p)))
+            }
+        }
+        _ => {
+            println!("{}", usage);
+            2
+        }
+    };
+    std::process::exit(code);
+}
